@@ -228,21 +228,25 @@ class Ctx:
 
     # ---------------------------------------------------------------- Go
     def go_build(self, cmd, tags="verif", race=False):
-        """Build harness/cmd/<cmd> against the current /repo working tree."""
+        """Build harness/cmd/<cmd> against the current working tree of REPO (/repo unless VERIF_REPO is set)."""
         h = os.path.join(ROOT, "harness")
         lock = open(os.path.join(BUILD, ".golock"), "w")
         fcntl.flock(lock, fcntl.LOCK_EX)
         try:
-            # go.sum must match /repo's
+            tagname = "" if REPO == "/repo" else "-" + hashlib.sha1(REPO.encode()).hexdigest()[:8]
+            modfile = os.path.join(BUILD, "go%s.mod" % tagname)
+            mod = open(os.path.join(h, "go.mod")).read().replace("=> /repo", "=> " + REPO)
+            if not os.path.exists(modfile) or open(modfile).read() != mod:
+                open(modfile, "w").write(mod)
             try:
                 src = open(os.path.join(REPO, "go.sum")).read()
-                dst = os.path.join(h, "go.sum")
+                dst = modfile[:-4] + ".sum"
                 if not os.path.exists(dst) or open(dst).read() != src:
                     open(dst, "w").write(src)
             except OSError:
                 pass
-            out = os.path.join(BUILD, cmd + ("-race" if race else ""))
-            argv = ["go", "build", "-tags", tags, "-o", out]
+            out = os.path.join(BUILD, cmd + tagname + ("-race" if race else ""))
+            argv = ["go", "build", "-modfile", modfile, "-tags", tags, "-o", out]
             env = {}
             if race:
                 argv.insert(2, "-race")
@@ -259,7 +263,8 @@ class Ctx:
 
     def go_build_repo(self, pkg, outname, tags="verif"):
         """Build a command of /repo itself (e.g. ./cmd/shfmt) from the current tree."""
-        out = os.path.join(BUILD, outname)
+        tagname = "" if REPO == "/repo" else "-" + hashlib.sha1(REPO.encode()).hexdigest()[:8]
+        out = os.path.join(BUILD, outname + tagname)
         rc, o, e = self.run(["go", "build", "-tags", tags, "-o", out, pkg], cwd=REPO, timeout=900)
         if rc != 0:
             self.broken.append(("go-build", "%s does not build: %s" % (pkg, (o + e)[-1500:])))
@@ -370,8 +375,10 @@ class Ctx:
 
 def load_known(pid):
     out = []
-    p = os.path.join(ROOT, "known_findings.jsonl")
-    if os.path.exists(p):
+    files = [os.path.join(ROOT, "known_findings.jsonl")]
+    for p in files:
+        if not os.path.exists(p):
+            continue
         for line in open(p):
             line = line.strip()
             if not line or line.startswith("#") or line.startswith("fixed:"):
